@@ -1301,6 +1301,11 @@ class ABCPropertyGraph(ABCPropertyGraphConstants):
         self.add_node(node_id=interface.node_id, label=ABCPropertyGraph.CLASS_ConnectionPoint, props=props)
         if parent_node_id is not None:
             self.add_link(node_a=parent_node_id, rel=ABCPropertyGraph.REL_CONNECTS, node_b=interface.node_id)
+        # child (sub-)interfaces hang off their parent interface
+        ii = interface.interface_info
+        if ii is not None:
+            for i in ii.interfaces.values():
+                self.add_interface_sliver(parent_node_id=interface.node_id, interface=i)
 
     def get_all_ns_or_link_connection_points(self, link_id: str) -> List[str]:
         """
